@@ -247,3 +247,8 @@ package transaction
 //@   invariant @loop 0: 0 <= $k && $k <= len(txs) && gp != nil && totalGasFee != nil && txsOK(txs)
 //@   invariant @loop 0: int(*gp) + int(gasUsed) <= int(header.GasLimit)
 //@   ensures result2 <= header.GasLimit
+// "a transaction that is not included costs nothing": whatever the reason a candidate is refused for (also a full block: a box
+// may fail on a sub-transaction's gas after earlier sub-transactions ran), the account state is taken back to the snapshot made
+// before it -- checked where each refusal branch starts
+//@   assert @call Info#1: gh("lastRevert", ref(p.am)) == snap
+//@   assert @call Mark#0: gh("lastRevert", ref(p.am)) == snap
